@@ -5,6 +5,7 @@ pub mod drv;
 pub mod ev;
 pub mod exec;
 pub mod frames;
+pub mod idl;
 pub mod rx;
 pub mod sim;
 pub mod srv;
